@@ -285,6 +285,19 @@ pub fn run_script(cache: AnyCache, script: &Value) -> Result<Value, BoxedError> 
                     Err(_) => obs.push(json!({"o":"caught"})),
                 }
             }
+            "loadn" => {
+                // read a count from a file and load that many leaves (a manifest that can grow)
+                let ext = ins["ext"].as_str().unwrap_or("");
+                let n = cache.raw_source().read(id, ext).ok().and_then(|c| crate::assets::parse_leaf(c.as_ref())).unwrap_or(0);
+                let prefix = ins["prefix"].as_str().unwrap_or("m");
+                let mut okc = 0;
+                for i in 0..n {
+                    if cache.load::<Leaf<0>>(&format!("{prefix}{i}")).is_ok() {
+                        okc += 1;
+                    }
+                }
+                obs.push(json!({"o":"count","n":okc}));
+            }
             "readdir" => match entries_json(cache, id) {
                 Ok(e) => obs.push(json!({"o":"ents","s":e})),
                 Err(_) => obs.push(json!({"o":"err"})),
